@@ -179,6 +179,7 @@ void set_mutex_init_fail(int nth_from_now, int err); // the n-th following pthre
 void set_attr_fail(int which, int err);
 // backtrace(): 0 real, 1 unsupported (returns 0), 2 at most one frame, 3 at most two frames (cfg "backtrace_mode")
 int backtrace_mode();
+void forget_objects(const void *p, size_t n); // objects identified by address only (atomics) inside a range of real-heap memory that is being freed
 bool mutex_held_any();
 int unjoined_threads(); // DONE but neither joined nor detached, plus not DONE
 
